@@ -172,6 +172,22 @@ TheOutcome(q, W) ==
      ELSE IF Len(r) = 1 THEN [out |-> "value", row |-> r[1]]
      ELSE [out |-> "MultipleSolutionFound", row |-> <<>>]
 
+\* ripple-down rule trees (C12).  node = [k = "node", tag, cond, ref, alt] | [k = "nil"].
+\* Fire: the tags of the conclusions the tree produces for one assignment: the most specific applicable refinement
+\* replaces what it refines; an alternative is consulted only where the branches before it did not fire.
+RECURSIVE Fire(_, _, _, _)
+Fire(n, env, q, W) ==
+  IF n.k = "nil" THEN <<>>
+  ELSE IF Holds(n.cond, env, q, W)
+       THEN LET r == Fire(n.ref, env, q, W) IN IF r # <<>> THEN r ELSE <<n.tag>>
+       ELSE Fire(n.alt, env, q, W)
+\* every assignment of the rule's variables is offered to the tree; a conclusion is P(a = x, b = tag [, c = y])
+RuleSeq(q, W) ==
+  LET es == EnvSeq(q, W)
+  IN FlattenSeqs([i \in 1..Len(es) |->
+       LET tags == Fire(q.tree, es[i], q, W)
+       IN [j \in 1..Len(tags) |-> [cls |-> "P", f |-> <<es[i][1], IntV(tags[j])>> \o (IF NVars(q) > 1 THEN <<es[i][2]>> ELSE <<>>)]]])
+
 \* rule inference: one instance per satisfying assignment
 HeadOf(q, W, env) == [cls |-> q.head.cls,
                       f |-> [k \in 1..Len(q.head.args) |-> Val(q.head.args[k].e, env, q, W)]]
